@@ -651,6 +651,24 @@ func c18(r *Report) {
 		}
 		okConn := nclose == 2 && len(calls(cl, "(net.Conn).Close")) == 1
 		r.Decide("path", "(*M/trafficshape.Conn).Close: closes the read and write bucket of every per-connection entry and the connection", okConn, "two Bucket.Close calls in a loop over LocalBuckets, then conn.Close", "closing a shaped connection leaves its buckets (a ticker and a goroutine each) running", cl.Pos())
+		// ... on every exit: no return of Close is reachable without walking the
+		// buckets (e.g. an early return when closing the wrapped connection fails)
+		var walk ssa.Instruction
+		for _, in := range instrs(cl) {
+			if rg, isR := in.(*ssa.Range); isR && anyIn(w.backSlice(rg.X, flowOpt{}), func(x ssa.Value) bool { fa, y := x.(*ssa.FieldAddr); return y && fieldObj(fa).Name() == "LocalBuckets" }) {
+				walk = rg
+			}
+		}
+		if walk != nil {
+			gcl := G(cl)
+			p := gcl.PathTo([]ssa.Instruction{gcl.Entry()}, true, func(i ssa.Instruction) bool { return i == walk }, isExit)
+			r.Paths++
+			if p != nil {
+				r.Fail("path", "(*M/trafficshape.Conn).Close: the buckets are closed on every exit", "Close can return without having walked LocalBuckets (an error closing the wrapped connection, an early return): the per-connection buckets keep their tickers and goroutines", witness(w, p), cl.Pos())
+			} else {
+				r.Hold("path", "(*M/trafficshape.Conn).Close: the buckets are closed on every exit", "every path from the entry to a return passes the loop over LocalBuckets", cl.Pos())
+			}
+		}
 		// per-shape bucket created by parseShapes
 		nb := plainCalls(ps, "M/trafficshape.NewBucket")
 		closers := 0
